@@ -136,6 +136,9 @@ def _decoders(p):
     for mod in (aidon, kaifa, kamstrup, cosem):
         p.setg(mod, "float", sym_float); p.setg(mod, "round", sym_round); p.setg(mod, "int", sym_int); p.setg(mod, "str", sym_str)
         p.setg(mod, "isinstance", models.sym_isinstance); p.setg(mod, "hasattr", models.sym_hasattr); p.setg(mod, "range", models.SymRange)
+        for gname, gval in list(vars(mod).items()):          # range objects built at import time (module-level constants) get the same membership test
+            if type(gval) is range:
+                p.setg(mod, gname, models.SymRange(gval.start, gval.stop, gval.step))
         regex.wrap_module_patterns(p, mod)
     try:
         restore, counts = loader.rewrite_adapter_lambda(cosem, "ObisCode", "decoder")
@@ -143,12 +146,20 @@ def _decoders(p):
         INFO["obiscode_adapter_rewritten"] = counts
     except Exception as e:
         INFO["obiscode_adapter_rewritten"] = f"failed: {e}"
-    try:
-        restore, counts = loader.rewrite(aidon, "_normalize_parsed_items", ifexp=True)
-        p.undo.append(restore)
-        INFO["aidon_ifexp_converted"] = counts.get("ifexp", 0)
-    except Exception as e:
-        INFO["aidon_ifexp_converted"] = f"failed: {e}"
+    # the int-or-float conditional of the Aidon normaliser (wherever a change moves it inside the module): non-forking numeric If
+    import types as _types
+    total = 0
+    for fname, f in list(vars(aidon).items()):
+        if isinstance(f, _types.FunctionType) and f.__module__ == aidon.__name__ and not fname.startswith("decode_"):
+            try:
+                restore, counts = loader.rewrite(aidon, fname, ifexp=True)
+                if counts.get("ifexp", 0):
+                    p.undo.append(restore); total += counts["ifexp"]
+                else:
+                    restore()
+            except Exception as e:
+                INFO.setdefault("aidon_ifexp_failed", []).append(f"{fname}: {e}")
+    INFO["aidon_ifexp_converted"] = total
     _obis(p)
 
 
